@@ -114,7 +114,7 @@ func checkC12(c *core.Ctx) {
 	c.Rule("every data-producing command (text parse, text conv degree|syllable, write, write event|parse|conv, info attr list|describe, info chord list|describe, info key list|describe|conv, gen attr, midi port in|out) x several inputs (also failing ones; ASTs of 5, 99, 100, 101 and 5,000 nodes around the iterator's channel capacity) is run repeatedly and with one dimension varied at a time and in random combinations: GOMAXPROCS 1/2/4/8/16, race-detector build, --debug, input by stdin / - / FILE, output by stdout / -o (fresh file and an existing longer file); " +
 		"stdout (or the -o file) and success must equal the first run byte for byte; any `WARNING: DATA RACE` of the race build is a violation; in-process (race build of the worker): the channel iterator must yield exactly the document order under draining, early break, yielding and sleeping consumers without deadlock or leaked goroutines; " +
 		"non-trivial = class in which >= 3 dimensions were varied and whose output has >= 64 bytes; distinct by class")
-	c.Assume("byte equality", "Go race detector (reports races of the schedules that occurred)", "stderr is not compared", "--help output is not a data-producing command")
+	c.Assume("byte equality", "Go race detector (reports races of the schedules that occurred)", "stderr is not compared")
 	if c.CrdRace == "" {
 		c.Inconclusive("race-detector build of crd is missing")
 		return
@@ -174,6 +174,9 @@ func checkC12(c *core.Ctx) {
 		texts["n1100-degrees-keychanges"] = []byte(b.String())
 	}
 	// a byte order mark in front of the text means the same on every input path (today: a syntax error)
+	// metadata keys that a sort with a non-total order (numeric-aware comparison with overflowing digit runs,
+	// digits of other scripts) would print in run-dependent order
+	texts["meta-keys"] = []byte("C[1]{9223372036854775808=x,1=y,90=z,٣=a,٤٤=b,18446744073709551616=c,007=d,7=e,0x7=f} D[1]{10=a,9=b,१०=c,९=d}")
 	texts["bom"] = []byte("\ufeffC[1] Am7/G[2]{txt=x} R[1]")
 	texts["bom-only"] = []byte("\ufeff")
 	texts["crlf"] = []byte("C[1]\r\nAm7/G[2]{txt=x}\r\nR[1]\r\n")
@@ -212,6 +215,15 @@ func checkC12(c *core.Ctx) {
 			add(strings.Join(cmd[:min(2, len(cmd))], " ")+"/bom", cmd, append([]byte("\ufeff"), doc...), true, true)
 			add(strings.Join(cmd[:min(2, len(cmd))], " ")+"/crlf", cmd, bytes.ReplaceAll(doc, []byte("\n"), []byte("\r\n")), true, true)
 		}
+	}
+	{
+		doc := []byte("- chord: {degree: \"1\", name: \"\"}\n  values: [1]\n  meta: {\"9223372036854775808\": x, \"1\": y, \"90\": z, \"٣\": a, \"٤٤\": b, \"18446744073709551616\": c, \"007\": d}\n")
+		add("write parse/meta-keys", []string{"write", "parse"}, doc, true, true)
+		add("write conv/meta-keys", []string{"write", "conv", "-c", "cmt"}, doc, true, true)
+	}
+	// help texts are standard output too
+	for _, h := range [][]string{{"--help"}, {"write", "--help"}, {"help", "write", "event"}, {"write", "conv", "--help"}, {"text", "conv", "--help"}, {"info", "key", "conv", "--help"}, {"gen", "attr", "--help"}} {
+		add("help/"+strings.Join(h, " "), h, nil, false, false)
 	}
 	add("write/invalid", []string{"write"}, []byte("- chord: {degree: \"1\", name: \"nosuch\"}\n  values: [1]\n"), true, true)
 	add("write event/no values", []string{"write", "event"}, []byte("- chord: {degree: \"1\", name: \"\"}\n"), true, true)
